@@ -11,17 +11,28 @@
 (*   amotry with factors -1, 2, 1/2 and the acceptance test ytry < y[ihi], *)
 (*   shrink towards the best vertex, psum maintenance, nfunc accounting,   *)
 (*   final swap of the best vertex into slot 0.                            *)
+(* A second family of objectives (two piecewise-linear wells) is not      *)
+(* convex, so that the contraction can fail and the simplex shrinks; all   *)
+(* quantities stay dyadic there as well, and equal values are frequent,    *)
+(* which exercises the tie rules of the ranking.                           *)
 (* S (property level): the best vertex value never increases; y is the     *)
 (* objective at the vertices; at termination slot 0 holds the best vertex  *)
 (* and fmin its value, which is not worse than any starting vertex.        *)
 (***************************************************************************)
 EXTENDS Rat, Sequences, FiniteSets, TLC
 
-\* objective: f(x) = f0 + sum_i a[i] (x_i - c_i)^2 + b (x_1 - c_1)(x_2 - c_2)   (b only when ndim >= 2)
-Obj(o, x) == LET n == Len(x)
-                 d == [i \in 1..n |-> RSub(x[i], R(o.c[i]))]
-                 S[k \in 0..n] == IF k = 0 THEN R(o.f0) ELSE RAdd(S[k - 1], RMul(R(o.a[k]), RMul(d[k], d[k])))
-             IN IF n >= 2 THEN RAdd(S[n], RMul(R(o.b), RMul(d[1], d[2]))) ELSE S[n]
+\* objective, kind 0: f(x) = f0 + sum_i a[i] (x_i - c_i)^2 + b (x_1 - c_1)(x_2 - c_2)   (b only when ndim >= 2)
+\* objective, kind 1 (two wells, not convex: the only way to make the simplex shrink):
+\*                    f(x) = f0 + min( sum_i a[i] |x_i - c_i| ,  w + sum_i a[i] |x_i - d_i| )
+Quad(o, x) == LET n == Len(x)
+                  d == [i \in 1..n |-> RSub(x[i], R(o.c[i]))]
+                  S[k \in 0..n] == IF k = 0 THEN R(o.f0) ELSE RAdd(S[k - 1], RMul(R(o.a[k]), RMul(d[k], d[k])))
+              IN IF n >= 2 THEN RAdd(S[n], RMul(R(o.b), RMul(d[1], d[2]))) ELSE S[n]
+Cone(o, cent, x) == LET n == Len(x)
+                        S[k \in 0..n] == IF k = 0 THEN RZero ELSE RAdd(S[k - 1], RMul(R(o.a[k]), RAbs(RSub(x[k], R(cent[k])))))
+                    IN S[n]
+Obj(o, x) == IF o.kind = 0 THEN Quad(o, x)
+             ELSE RAdd(R(o.f0), RMin(Cone(o, o.c, x), RAdd(R(o.w), Cone(o, o.d, x))))
 
 ColSum(p, j) == LET S[i \in 0..Len(p)] == IF i = 0 THEN RZero ELSE RAdd(S[i - 1], p[i][j]) IN S[Len(p)]
 Psum(p) == [j \in 1..Len(p[1]) |-> ColSum(p, j)]
